@@ -305,7 +305,7 @@ def accepts : S → Json → Bool
           shapeAccepts part shape fs
           && (match mode with
               | .strict => fs.all (fun k _ => shape.keys.contains k)
-              | .strip => true
+              | .strip => catchAccepts ca shape.keys fs      -- /repo 507cd5d: dropped from the result, but validated
               | .loose => catchAccepts ca shape.keys fs)
           && szOk cks (match mode with
               | .strip => (fs.filter (fun k => shape.keys.contains k)).size
